@@ -68,6 +68,8 @@ fixed("C19", "unlisted:panic", "f0d132d", "CFormatSpec::format_bytes underflowed
 fixed("C17", "unlisted:to_string-not-round-tripping", "3a69894", "float::to_string(0.9999999999999999) rendered '1.0' (is_integer used an EPSILON comparison)", "0.9999999999999999")
 fixed("C11", "unlisted:tree-differs-after-round-trip", "3a69894", "the float constant 0.9999999999999999 was unparsed as 1.0", "0.9999999999999999")
 fixed("C12", "unlisted:optimizer-output-differs-from-reference-rewrite", "c23d8c7", "ConstantOptimizer folded store/del-context tuples such as `() = x` into a Constant", "() = x")
+fixed("C06", "unlisted:rust-rejects-literal", "d96bbf3", "a float literal with a decimal point written directly against `else` (`0 if y<1.5else 2`) was rejected as an invalid decimal literal: after the fraction the lexer took any `e` as the start of an exponent", "0 if y<1.5else 2")
+fixed("C01", "unlisted:rust-rejects", "d96bbf3", "same defect seen by C01: `x = 0 if y<5.else 2` rejected", "x = 0 if y<5.else 2")
 fixed("C18", "unlisted:string-precision", "5b84adc", "format_string truncated after padding and by bytes (wrong text; panic inside a multi-byte character)", "format('é', '1.1')")
 
 fixed("C17", "unlisted:parse_bytes-differs-from-float()", "c3b3461", "parse_bytes did not strip a vertical tab (u8::is_ascii_whitespace excludes 0x0b) although float() and parse_str do", "b' 1\\x0b'")
